@@ -120,7 +120,10 @@ impl<'t, 'a, 'g> Gen<'t, 'a, 'g> {
         match (&v.ty, self.tape.below(4)) {
             (Ty::Num, 0) | (Ty::Num, 1) => {
                 let ops = ["+=", "-=", "*=", "/=", "%=", "&=", "|=", "^=", "<<=", ">>=", ">>>=", "**="];
-                let op = ops[self.rr_pick("compound", ops.len())];
+                let mut op = ops[self.rr_pick("compound", ops.len())];
+                if matches!(op, "&=" | "|=" | "^=" | "<<=" | ">>=" | ">>>=") && self.gated("bitwise-large-operands") {
+                    op = "+="; // the variable's current value may be outside the int32 range
+                }
                 let rhs = if op == "**=" {
                     self.tape.range(0, 3).to_string()
                 } else if matches!(op, "&=" | "|=" | "^=" | "<<=" | ">>=" | ">>>=") && self.gated("bitwise-large-operands") {
@@ -469,6 +472,9 @@ impl<'t, 'a, 'g> Gen<'t, 'a, 'g> {
     }
 
     pub fn stmt_try(&mut self, i: usize) -> String {
+        if self.in_finally > 0 && self.gated("try-inside-finally") {
+            return self.stmt_decl(i);
+        }
         self.tag("stmt:try");
         let has_catch = self.tape.chance(4, 5);
         let has_finally = !has_catch || self.tape.chance(1, 2);
@@ -527,7 +533,9 @@ impl<'t, 'a, 'g> Gen<'t, 'a, 'g> {
         if has_finally {
             self.tag("stmt:finally");
             s.push_str(" finally {\n");
+            self.in_finally += 1;
             let fb = self.small_body(i + 1);
+            self.in_finally -= 1;
             s.push_str(&fb.join("\n"));
             s.push('\n');
             s.push_str(&format!("{}}}", ind(i)));
